@@ -94,7 +94,16 @@ fn build_doc(s: &Sch, id: u64, d: &Value) -> TantivyDocument {
         let tokens: Vec<Token> = toks
             .iter()
             .map(|t| {
-                let w = t[0].as_str().unwrap();
+                // "long:<c>:<n>" stands for the character c repeated n times (tokens around MAX_TOKEN_LEN)
+                let w0 = t[0].as_str().unwrap();
+                let wl: String;
+                let w: &str = if let Some(rest) = w0.strip_prefix("long:") {
+                    let (c, n) = rest.split_once(':').unwrap();
+                    wl = c.repeat(n.parse().unwrap());
+                    &wl
+                } else {
+                    w0
+                };
                 let from = text.len();
                 text.push_str(w);
                 text.push(' ');
@@ -181,7 +190,13 @@ fn key_of(field: &str, b: &[u8]) -> String {
     let be8 = |b: &[u8]| -> Option<u64> { <[u8; 8]>::try_from(b).ok().map(u64::from_be_bytes) };
     let bad = || format!("?{}", hex(b));
     match field {
-        "pos" | "frq" | "bas" | "nn" | "raw" => String::from_utf8(b.to_vec()).unwrap_or_else(|_| bad()),
+        "pos" | "frq" | "bas" | "nn" | "raw" => {
+            if b.len() > 4096 && b.iter().all(|x| *x == b[0]) && b[0].is_ascii_alphanumeric() {
+                format!("long:{}:{}", b[0] as char, b.len())       // (the key a long run is given as)
+            } else {
+                String::from_utf8(b.to_vec()).unwrap_or_else(|_| bad())
+            }
+        }
         "u" | "id" => be8(b).map(|x| format!("u:{x}")).unwrap_or_else(bad),
         "i" => be8(b).map(|x| format!("i:{}", (x ^ (1 << 63)) as i64)).unwrap_or_else(bad),
         "b" => be8(b).map(|x| format!("b:{}", x != 0)).unwrap_or_else(bad),
@@ -260,7 +275,7 @@ fn dump(tracer: &Tracer, s: &Sch, index: &Index, phase: &str, seeks: &[Value]) {
                     }
                     // the same term through the lookup API
                     let lookup = if matches!(*fname, "pos" | "frq" | "bas" | "nn" | "raw") && !key.starts_with('?') {
-                        Some(inv.doc_freq(&Term::from_field_text(field, &key))?)
+                        Some(inv.doc_freq(&Term::from_field_text(field, &String::from_utf8_lossy(&b)))?)
                     } else {
                         None
                     };
